@@ -3,11 +3,15 @@
    the progress step for nodes: a node without pod CIDRs for which some considered ClusterCIDR has room IS
    served when its item runs with a successful write; and conversely a refusal means no considered entry has
    room (C05) -- so each fair, fault-free round strictly reduces the number of servable unserved nodes.
+   Both progress steps are also proved for the closed loop (Conv_proofs.v): one fault-free ProcNode on a queued, servable
+   node leaves the node's API object WITH pod CIDRs; one fault-free ProcCC on a ClusterCIDR whose deletion was requested,
+   that carries only the controller's finalizer and on whose entry no node depends, removes the object from the API and
+   the entry from the map.
    Not proved (checked by the monitor after a fair drain of every history): the measure argument as one
-   theorem over drain schedules (bounded convergence), and the ClusterCIDR-deletion half of the steady state;
+   theorem over drain schedules (bounded convergence);
    fairness and timing of the real rate limiter are represented only by Tick.
    Recorded residue: K-AMB. *)
-From NIPAM Require Import Sys Alloc_proofs Sys_proofs Inv_proofs Complete_proofs Path_proofs Progress_proofs.
+From NIPAM Require Import Sys Alloc_proofs Sys_proofs Inv_proofs Complete_proofs Path_proofs Progress_proofs Conv_proofs.
 Open Scope N_scope.
 
 Theorem C11_partial_failed_node_item_requeued :
@@ -35,3 +39,30 @@ Theorem C11_partial_servable_node_is_served :
     sync_node po lab svcs canp apisame held m (Some node) (Some nr) (POk :: outs) = (m', Ok tt, [FxPatch (n_name node) cs POk]).
 Proof. exact servable_node_is_served. Qed.
 Print Assumptions C11_partial_servable_node_is_served.
+
+(* ---------- progress steps of the closed loop ---------- *)
+Theorem C11_partial_queued_servable_node_gets_pod_cidrs :
+  forall po lab w m key rest outs node a ps,
+  w_ctl w = Some m -> MapInv m -> KU m ->
+  q_ready (w_nq w) = key :: rest ->
+  find_node key (w_ncache w) = Some node -> n_cidrs node = [] -> n_deleting node = false ->
+  find_anode key (w_nodes w) = Some a -> an_cidrs a = [] ->
+  ordered_matching po lab m (n_labels node) true = Ok ps ->
+  (exists p c, In p ps /\ get_entry m p = Some c /\ ~ no_room m (held_cidrs (w_ncache w)) c) ->
+  let w' := fst (step po lab w (ProcNode (POk :: outs))) in
+  exists a' cs, cs <> [] /\ find_anode key (w_nodes w') = Some a' /\ an_cidrs a' = map (fun c => PGood c true) cs /\
+                ob_res (snd (step po lab w (ProcNode (POk :: outs)))) = 1.
+Proof. exact proc_node_serves. Qed.
+Print Assumptions C11_partial_queued_servable_node_gets_pod_cidrs.
+
+Theorem C11_partial_unneeded_deleting_clustercidr_is_released :
+  forall po lab w m key rest o cur k l i c,
+  w_ctl w = Some m -> q_ready (w_cq w) = key :: rest ->
+  find_cc key (w_ccache w) = Some o -> o_deleting o = true -> o_fins o = [finalizer] ->
+  find_cc (o_name o) (w_ccs w) = Some cur -> o_rv cur = o_rv o -> o_deleting cur = true ->
+  o_selkey o = Some k -> find_key k m = Some l -> find_name (o_name o) l 0 = Some (i, c) -> cc_assoc c = [] ->
+  let w' := fst (step po lab w (ProcCC UOk)) in
+  find_cc (o_name o) (w_ccs w') = None /\ ob_res (snd (step po lab w (ProcCC UOk))) = 1 /\
+  exists m', w_ctl w' = Some m' /\ delete_cluster_cidr m o = (m', Ok tt).
+Proof. exact proc_cc_releases. Qed.
+Print Assumptions C11_partial_unneeded_deleting_clustercidr_is_released.
